@@ -3,7 +3,7 @@ import os
 
 import core
 
-OPS = ["matprog", "map_lines", "diag"]
+OPS = ["matprog", "map_lines", "diag", "display_fmt"]
 ROUTES = ("idx", "rows", "cols", "slice", "ptr", "mintr", "mintc", "disp")
 
 
@@ -63,7 +63,8 @@ def run(ctx):
                 "matrix; every program is replayed on a real row-major and a real column-major value side by side and "
                 "after EVERY call both are projected through 8 routes (m[(i,j)], into_row_array, into_col_array, flat "
                 "slice view and as_row_ptr/as_col_ptr reads interpreted with gl_should_transpose (is_packed must hold), mint RowMatrix / ColumnMatrix, Display) that TLC compares with the abstract matrix; plus long "
-                "random programs and single records for map_rows/map_cols, diagonal, trace, row/col counts; "
+                "random programs and single records for map_rows/map_cols, diagonal, trace, row/col counts, Display with format "
+                "parameters (precision, sign, width reach every element in both layouts); "
                 "non-trivial = program with >= 2 calls")
     thorough = ctx.tier == "thorough"
     L = 3 if thorough else 2
